@@ -32,7 +32,14 @@ def run(c, chk):
 
     # ---- R17.1 / R17.3 -----------------------------------------------------------------------
     fn = c.need('cfg_searchpath')
-    paths = [p for p in ex.explore(fn) if p.end == 'ret']
+    # helpers of the search that wrap the file test are analysed as part of it
+    helpers = set()
+    for call in fn.calls():
+        g = c.func(call.callee_name() or '')
+        if g is not None and g is not fn and any(x.callee_name() in ('stat', '__xstat', 'stat64', 'lstat', 'fstat') for x in g.calls()):
+            helpers.add(g.name)
+    exs = sym.Explorer(c.modules, inline=helpers, max_visits=3, mod_sets=c.mod_sets, max_paths=50000)
+    paths = [p for p in exs.explore(fn) if p.end == 'ret']
     nret = 0
     okall = True
     abs_ok = None
@@ -102,6 +109,10 @@ def run(c, chk):
                 recurse_first = True
             else:
                 own_first = True
+        # iterative form: the directories are joined in list order, head first
+        dirs = [sym.render(e.args[0]) for e in p.events if e.kind == 'call' and e.name == 'cfg_make_fullpath']
+        if len(dirs) >= 2 and dirs[0] == 'p->dir' and dirs[1] == 'p->next->dir':
+            own_first = True
     rec_arg_ok = all(sym.render(e.args[0]) == 'p->next' for p in paths for e in p.events if e.kind == 'call' and e.name == 'cfg_searchpath')
     if prepend and recurse_first and not own_first and rec_arg_ok:
         chk.ok('R17.2', 'order', 'add prepends; search visits p->next (older directories) before its own directory: oldest first', sample=True)
@@ -110,8 +121,7 @@ def run(c, chk):
     elif (prepend and own_first) or (append and recurse_first):
         chk.fail('R17.2', 'search-order', c.where(fn), 'directories are searched newest-first: add %s but the search %s'
                  % ('prepends' if prepend else 'appends', 'tests its own directory before the rest of the list' if own_first else 'visits the rest of the list first'))
-    elif (prepend or append) and not recurse_first and not own_first and not any(e.kind == 'call' and e.name == 'cfg_searchpath' for p in paths for e in p.events) \
-            and not any(e.kind == 'store' and False for p in paths for e in p.events):
+    elif (prepend or append) and not recurse_first and not own_first and not any(e.kind == 'call' and e.name == 'cfg_searchpath' for p in paths for e in p.events):
         chk.fail('R17.2', 'search-incomplete', c.where(fn), 'cfg_searchpath() never visits the rest of the directory list: only one directory is searched')
     else:
         raise report.Broken('search-path add/search shape not recognised (prepend=%s append=%s recurse_first=%s own_first=%s)' % (prepend, append, recurse_first, own_first))
